@@ -9,7 +9,8 @@ Bound (stated in the evidence): every sequence of 1..3 operations over
   2 contexts (two pipeline ids under one artifact_dir and model name) x 6 node ids ('n', 'n.x', 'n.json', 'a*', '[n]', '')
   x save(value, format) with 2 formats and 6 values (a dict, '', 0, None, a value only pickle can store, a string that can be
     serialised but not encoded) | load
-restricted to sequences that touch at most 2 distinct (context, id) keys, plus the failed-save-then-save/load sequences for
+restricted to sequences that touch at most 2 distinct (context, id) keys (the single-key sequences of length >= 2 also with two
+live store objects per context taking turns), plus the failed-save-then-save/load sequences for
 every failing (value, format) pair.
 
 usage: /venv/bin/python bounded/fsstore.py [--json FILE]
@@ -76,10 +77,19 @@ def sequences():
                         seen += 1
 
 
-async def run_sequence(seq, root, failures):
-    stores = {c: FileSystemArtifactStore(Ctx(f'pipe{c}'), root) for c in (0, 1)}
+async def run_sequence(seq, root, failures, two_objects=False):
+    # two_objects: every context has two live store objects (as two components of one process would hold them); the steps
+    # alternate between them, starting with the second one -- the map is keyed by (model, pipeline, node), not by the object
+    objs = {c: [FileSystemArtifactStore(Ctx(f'pipe{c}'), root) for _ in range(2 if two_objects else 1)] for c in (0, 1)}
+    if two_objects:
+        for c in (0, 1):          # the second object has looked at the directory before anything was saved
+            try:
+                await objs[c][1].load('never-saved')
+            except ArtifactDoesNotExist:
+                pass
     model = {}
     for step, ((c, node_id), (op, vi, fmt)) in enumerate(seq):
+        stores = {c_: o[(step + 1) % len(o)] for c_, o in objs.items()}
         key = (c, node_id)
         desc = lambda: ' ; '.join(f"ctx{k[0]}.{o[0]}({k[1]!r}" + (f', {VALUES[o[1]]!r}, {o[2].value})' if o[0] == 'save' else ')')
                                    for k, o in seq[:step + 1])
@@ -136,6 +146,16 @@ async def main_async():
             await run_sequence(seq, root, failures)
         finally:
             shutil.rmtree(root, ignore_errors=True)
+        if len(seq) >= 2 and len({k for k, _o in seq}) == 1:
+            n += 1
+            root = tempfile.mkdtemp(prefix='pyvc_fs_')
+            n0 = len(failures)
+            try:
+                await run_sequence(seq, root, failures, two_objects=True)
+            finally:
+                shutil.rmtree(root, ignore_errors=True)
+            for f_ in failures[n0:]:
+                f_['case'] = 'two store objects per context, steps alternating between them: ' + f_['case']
         if len(failures) > 200:
             break
     # ---- the model name may be an Enum member: the key is its *value*
@@ -182,7 +202,7 @@ async def main_async():
 def main():
     n, failures = asyncio.run(main_async())
     result = dict(harness='bounded/fsstore.py', bound='sequences of <= 3 operations (<= 2 saves) over 2 contexts x 6 node ids x '
-                  '(save of 6 values in 2 formats | load), touching at most 2 keys', cases=n, failures=failures)
+                  '(save of 6 values in 2 formats | load), touching at most 2 keys; single-key sequences also with two live store objects per context taking turns', cases=n, failures=failures)
     if '--json' in sys.argv:
         with open(sys.argv[sys.argv.index('--json') + 1], 'w') as f:
             json.dump(result, f, indent=1, default=str)
